@@ -73,6 +73,15 @@ class PandasMaterializer(FormulaMaterializer):
     ) -> Any:
         if drop_rows:
             values = drop_nulls(values, indices=drop_rows)
+        if (
+            isinstance(values, pandas.Series)
+            and not isinstance(values.dtype, numpy.dtype)
+            and pandas.api.types.is_bool_dtype(values.dtype)
+            and values.isna().any()
+        ):
+            # A nullable boolean column whose missing values are kept has no
+            # numeric numpy representation other than float (NaN).
+            values = values.astype("Float64")
         if spec.output == "sparse":
             return spsparse.csc_matrix(
                 numpy.array(values).reshape((values.shape[0], 1))
